@@ -167,14 +167,23 @@ async def run_worker(loop, sc: dict, make=None, projector=inmem_projector, signa
                         match = match and payload.data == str(last["exc"]) and payload.exception == type(last["exc"]).__name__
                 match = bool(match and payload.started_when <= payload.finished_when
                              and payload.ttl == jobs[jid].get("result_ttl", timedelta(days=1)))
-            rec.emit({"e": "store", "i": i, "failed": bool(fail), "match": bool(match)})
             if fail:
+                rec.emit({"e": "store", "i": i, "failed": True, "match": bool(match)})
                 raise ConnectionError("result store unavailable (injected)")
-            return await orig_store(id_, payload)
+            r = await orig_store(id_, payload)
+            # the reading side: the producer's own Job object (the same object every time) sees what has just been stored
+            job_obj = jobobjs.get(jid)
+            if job_obj is not None and getattr(job_obj, "result_id", None) == id_:
+                seen = await job_obj.result
+                match = bool(match and seen is not None and (seen.data, seen.success, seen.exception, seen.started_when, seen.finished_when)
+                             == (payload.data, payload.success, payload.exception, payload.started_when, payload.finished_when))
+            rec.emit({"e": "store", "i": i, "failed": False, "match": bool(match)})
+            return r
         store_bucket._repid_signal_emitter = getattr(orig_store, "_repid_signal_emitter", None)
         rb.store_bucket = store_bucket
 
     jobs = {j["id"]: j for j in sc["jobs"]}
+    jobobjs: dict = {}
     last_outcome: dict = {}
     attempts = {j["id"]: 0 for j in sc["jobs"]}
     conv = BasicConverter if sc.get("converter", "basic") == "basic" else PydanticConverter
@@ -342,7 +351,6 @@ async def run_worker(loop, sc: dict, make=None, projector=inmem_projector, signa
         await job.enqueue()
         return job
 
-    jobobjs = {}
     for j in sc["jobs"]:
         if not j.get("at_ms"):
             jobobjs[j["id"]] = await enqueue(j)
